@@ -377,7 +377,8 @@ func (db *hostKeyDB) checkAddr(a addr, remoteKey ssh.PublicKey) error {
 	keyErr := &KeyError{}
 
 	for _, l := range db.lines {
-		if !l.match(a) {
+		// A @cert-authority line lists a CA key, not a host key.
+		if l.cert || !l.match(a) {
 			continue
 		}
 
